@@ -17,7 +17,10 @@ TRUSTED = ["Coq 8.16.1 kernel + vm_compute (no native_compute)",
            "numpy.linalg / scipy.linalg back ends of CHOLESKY are modelled as 'solve', not verified",
            "Python harness (snapshot, generators, float->dyadic conversion)"]
 TRUSTED = TRUSTED + [TRUSTED_LINE]
-LEVEL_TEXT = LEVEL_TEXT + (" Additionally the hand-written model is tied to the source text: a deep-embedded loop-IR program is regenerated from the Python source of LEVINSON, HERMTOEP, TOEPLITZ, levup, levdown on every run (fail-closed ast translator) and evaluated by the Coq interpreter at the exact instance against the model with zero tolerance (same outcome, every entry equal).")
+LEVEL_TEXT = LEVEL_TEXT + (" Additionally the hand-written model is tied to the source text: a deep-embedded loop-IR program is regenerated from the Python source of LEVINSON, HERMTOEP, TOEPLITZ, levup, levdown on every run (fail-closed ast translator) and evaluated by the Coq interpreter at the exact instance against the model with zero tolerance (same outcome, every entry equal). For LEVINSON the tie is translation + theorem: coq/Proofs/LoopIRLevinson.v proves, for every input, that the interpreter run on "
+           "the generated program returns / raises exactly as the model (complex dtype: unconditionally; float dtype: real-valued r with positive zero lag, allow_singularity=False); "
+           "on every run the regenerated program is compared with the one the proof is about (reflexivity inside Coq) - if the source text changed the theorems are not claimed "
+           "and the exact evaluation decides.")
 UNPROVED = ["CHOLESKY (numpy/scipy back ends): residual search only",
             ]
 ASSUMPTIONS = ["exact arithmetic in the theorems; rounding error of the binary64 code is not bounded by any theorem",
